@@ -27,7 +27,7 @@ SHAPES = [
     ("moveCopy", LZ, r"self\.buf\.copy_within\(offset\.\.offset \+ move_size, 0\);", 1, "copied to the start of the buffer"),
     ("moveShiftsPositions", LZ, r"self\.read_pos -= move_offset; self\.read_limit -= move_offset; self\.write_pos -= move_offset;", 1, "all three positions shift by the offset"),
     ("moveCondition", LZ, r"if self\.read_pos >= \(self\.buf_size as i32 - self\.keep_size_after as i32\) \{ self\.move_window\(\); \}", 1, "the window moves when read_pos reaches buf_size - keep_size_after"),
-    ("fillLen", LZ, r"let len = if input\.len\(\) as i32 > self\.buf_size as i32 - self\.write_pos \{ \(self\.buf_size as i32 - self\.write_pos\) as usize \} else \{ input\.len\(\) \};", 1, "fill takes min(input, free space)"),
+    ("fillLen", LZ, r"let len = input \.len\(\) \.min\(\(self\.buf_size as i32 - self\.write_pos\) as usize\);", 1, "fill takes min(input, free space), compared as usize (the pinned comparison cast input.len() to i32: a slice of 2 GiB or more took the `else` branch and panicked; repaired in f316de2)"),
     ("readLimitRule", LZ, r"if self\.write_pos >= self\.keep_size_after as i32 \{ self\.read_limit = self\.write_pos - self\.keep_size_after as i32; \}", 1, "read_limit = write_pos - keep_size_after"),
     ("flushLimit", LZ, r"self\.read_limit = self\.write_pos - 1;", 2, "set_flushing / set_finishing: read_limit = write_pos - 1"),
     ("hasEnoughData", LZ, r"self\.read_pos - already_read_len < self\.read_limit", 1, "has_enough_data"),
